@@ -350,7 +350,11 @@ retryResolution:
 			// A client restricted to certain networks must not fetch the
 			// well-known file from an address outside them either.
 			var wellKnownDial dialContextFunc
-			if f.dialer.ControlContext != nil {
+			if f.dnsCache != nil {
+				// requests are dialled through the DNS cache, which carries
+				// its own allow / deny lists
+				wellKnownDial = f.dnsCache.DialContext
+			} else if f.dialer.ControlContext != nil {
 				wellKnownDial = f.dialer.DialContext
 			}
 			resolutionResults, err = resolveServer(r.Context(), serverName, true, wellKnownDial)
